@@ -35,6 +35,7 @@ EXPLANATION = (
     "finalize on all normal paths; the CSV writer validates, appends "
     "without header and initialises with the header; the Parquet writer "
     "writes with its schema and closes. Also: Parquet read() and chunk iterator agree on the Arrow->pandas conversion; text writer and text reader agree on cell-format options; every write() override starts from an empty file; the computed column is attached by position, not by index label; columns are selected iff a list was given (truth table over the method specialised to None / not None). "
+    "Also: whatever becomes the buffered writer's buffer is a fresh object, never a parameter of the method (the caller's list or frame). "
     "NOT decided: value round-trip "
     "through CSV text.")
 TECHNIQUE = ("sibling agreement over an interface + optional-parameter "
@@ -673,6 +674,38 @@ def _buffered(ctx):
               "new rows are placed behind the rows already buffered, for "
               "all three buffer kinds", "buffer concatenation order changed",
               node=ap.node)
+    # the buffer is the writer's own object: it never *is* an object the
+    # caller handed in (a list the caller goes on using would otherwise be
+    # grown, sliced and cleared by the writer, and buffered rows would follow
+    # every later change the caller makes)
+    from ..paths import var_leaves as _vl
+    n_assign = 0
+    for mname, m in sorted(cls.methods.items()):
+        mdu = DefUse(prog, m)
+        mT = Terms(mdu, phi_vars=True)
+        own = set(m.params) - {"self"}
+        for n in walk_own(m.node):
+            if not isinstance(n, ast.Assign):
+                continue
+            for tg in n.targets:
+                if not (isinstance(tg, ast.Attribute) and tg.attr == "buffer"
+                        and mT.of(tg.value) == ("param", "self")):
+                    continue
+                n_assign += 1
+                lv = [y for x in leaves(mT.of(n.value))
+                      for y in _vl(mdu, mT, x)]
+                shared = [x for x in lv if x[0] == "param" and x[1] in own]
+                ctx.check(not shared, "C13d-buffer-is-the-writers-own", m,
+                          "what becomes the buffer is a fresh object (a "
+                          "copy, a concatenation, a slice, an empty "
+                          "container), never the caller's",
+                          f"self.buffer = {ast.unparse(n.value)[:60]} can be "
+                          f"the caller's own '{shared[0][1] if shared else ''}"
+                          "' object: the next append grows the caller's "
+                          "list in place and everything the caller does to "
+                          "it afterwards changes the buffered rows",
+                          node=n)
+    ctx.floor("C13d-buffer-assignments", n_assign, 4)
     fin = cls.methods["finalize"]
     fc = Calls(prog, fin)
     forced = [x for x in fc.mcalls("_write_buffer", SELF)
